@@ -1,4 +1,5 @@
 import Crd.Props.C04
+import Crd.Props.IO
 #print axioms Crd.Props.C04.grammar_shape
 #print axioms Crd.Props.C04.parser_decides_grammar
 #print axioms Crd.Props.C04.tree_faithful
@@ -10,3 +11,4 @@ import Crd.Props.C04
 #print axioms Crd.Props.C04.accepts_iff
 #print axioms Crd.Props.C04.never_crashes
 #print axioms Crd.Props.C04.text_is_tokens_and_trivia
+#print axioms Crd.Props.IO.io_sites_accounted
